@@ -481,8 +481,19 @@ def main(repo, out):
     tl_body = one_block(macros_rs, r"macro_rules!\s*try_lock\s*\{", "macro try_lock", unrec)
     ok = tl_body is not None and clean(tl_body) == T_TRY_LOCK
     helpers.append(("macros::try_lock", ok))
+    # the ORDER of its branches: the lock result is inspected first and `std::thread::panicking()` only in the arm of a poisoned lock
+    # ("lock_first").  If `panicking()` is consulted before the lock expression is evaluated, every callback made while the thread is
+    # unwinding is skipped even though the lock is healthy ("panicking_first"); the model then treats ops run during unwinding accordingly.
+    tl_order = "unknown"
+    if ok:
+        tl_order = "lock_first"
+    elif tl_body is not None:
+        arm = clean(tl_body).split("($lock:expr, else $els:expr) =>", 1)[-1]
+        i_p, i_l = arm.find("std::thread::panicking()"), arm.find("$lock")
+        if 0 <= i_p < i_l:
+            tl_order = "panicking_first"
     if not ok:
-        unrec.append("macros.rs try_lock! differs from the template")
+        unrec.append("macros.rs try_lock! differs from the template (branch order: %s)" % tl_order)
     hfn = {}
     for _, body, _, _ in find_blocks(reload_rs, r"impl\s*<T>\s*Handle<T>\s*\{"):
         hfn.update(fns_in(body))
@@ -506,6 +517,7 @@ def main(repo, out):
         "(%s, %s, %s, %s)" % (coq_str(w), TRAITS[t], coq_str(m), c) for w, t, m, c in rows) + " ].\n")
     G.append("Definition gen_helpers : list (string * bool) :=\n  [ " + "; ".join(
         "(%s, %s)" % (coq_str(h), "true" if ok else "false") for h, ok in helpers) + " ].\n")
+    G.append("Definition gen_try_lock_order : string := %s.\n" % coq_str(tl_order))
     G.append("Definition gen_unrecognised : list string :=\n  [" + "; ".join(coq_str(u[:200]) for u in unrec) + "].")
     text = "\n".join(G) + "\n"
     if out:
